@@ -5,17 +5,28 @@
    correspondence check runs against StreamingDecoder::update) yields the same observation: the same sequence of events other than
    Nothing/ImageData (header, chunk begin/complete, metadata events, frame control, ...), the same image bytes with every ImageDataFlushed,
    and the same end - the complete decoder state (metadata included) when the run ends at IEND or at the end of the input, the same error and the
-   same metadata when it fails.  The amount of image data handed out before a failure is not observed (as the property allows).  The only premise
-   besides bytes being bytes is the prefix-determinacy contract of the EXTERNAL inflater (fdeflate): what a prefix of a zlib stream has determined -
+   same metadata when it fails.  The amount of image data handed out before a failure is not observed (as the property allows).  For the executable model (reference inflater of Base/Inflate.v) there is NO premise
+   besides bytes being bytes (C04_executable_model_is_delivery_independent: the reference inflater is PROVED to meet the contract, Proofs/InflatePrefix.v);
+   for an arbitrary inflater the only premise is the prefix-determinacy contract of the EXTERNAL inflater (fdeflate): what a prefix of a zlib stream has determined -
    output, an error, the end of the stream - stays determined when more input follows (zinf_contract; satisfiable: C04_contract_satisfiable).
    The proof goes through (1) the inflater wrapper (z_decompress_app), (2) one transition on p ++ q versus on p and then on q (step_ext: a 4-byte
    field, a chunk body or compressed image data straddling the cut), (3) runs of transitions (micro_cut), (4) lists of pieces, (5) the fuelled
    loops of update / feed, which (6) never run out of fuel (C04_driver_never_runs_dry: every transition lowers 5*|buffer| + rank).
    STILL PARTIAL with respect to the property's other half: the Reader on top of a BufRead (rows, frames) is not part of this theorem; it is
    decided on every run by the metamorphic check (whole vs byte-by-byte vs every single cut point vs random schedules) and has one known finding. *)
-From PngV Require Import Base.Bytes Base.Crc Gen.GenStream Model.Stream Model.StreamRun Proofs.StreamProofs Proofs.StreamSplit Proofs.StreamWhole.
+From PngV Require Import Base.Bytes Base.Crc Gen.GenStream Model.Stream Model.StreamRun Proofs.StreamProofs Proofs.StreamSplit Proofs.StreamWhole Base.Inflate Base.Utf8 Model.StreamExec Proofs.InflatePrefix.
 From RecordUpdate Require Import RecordSet.
 Import RecordSetNotations.
+
+(* THE PROPERTY for the EXECUTABLE model of the streaming decoder (the one the correspondence check runs against StreamingDecoder::update), with NO premise about the inflater: any two ways of cutting the same bytes give the same observation *)
+Theorem C04_executable_model_is_delivery_independent :
+  forall (o : options) (limit : Z) (ps1 ps2 : list (list Z)),
+       Forall bytes_ok ps1 ->
+       Forall bytes_ok ps2 ->
+       concat ps1 = concat ps2 ->
+       feed_obs (feed zinf_ref inflate_checked utf8_valid (init_state o limit) ps1) =
+       feed_obs (feed zinf_ref inflate_checked utf8_valid (init_state o limit) ps2).
+Proof. exact executable_model_is_delivery_independent. Qed.
 
 (* THE PROPERTY for the streaming decoder: from a newly created decoder, any two ways of cutting the same bytes give the same observation *)
 Theorem C04_decoding_is_delivery_independent :
@@ -29,6 +40,11 @@ Theorem C04_decoding_is_delivery_independent :
        feed_obs (feed zinf zall utf8_valid (init_state o limit) ps1) =
        feed_obs (feed zinf zall utf8_valid (init_state o limit) ps2).
 Proof. exact decoding_is_delivery_independent. Qed.
+
+(* the reference inflater of Base/Inflate.v meets the prefix-determinacy contract (monotone output, error-stable, done-stable), by induction over its block loop *)
+Theorem C04_reference_inflater_meets_the_contract :
+  zinf_contract zinf_ref.
+Proof. exact zinf_ref_contract. Qed.
 
 (* the same from every state that satisfies the invariant (e.g. after reset, or in mid-stream), given that neither run exhausts the driver's fuel *)
 Theorem C04_delivery_independent_from_any_state :
@@ -266,7 +282,9 @@ Example C04_demo_observation_is_not_trivial :
   [OE (EChunkBegin 13 ct_IHDR); OE (EHeader 1 1 8 0 false); OE (EChunkComplete (be32 58 126 155 85) ct_IHDR);
    OE (EChunkBegin 3 ct_IDAT); OE (EChunkComplete 0 ct_IDAT); OF [7; 9]; OE (EChunkBegin 0 ct_IEND); OE EImageEnd].
 Proof. vm_compute. reflexivity. Qed.
+Print Assumptions C04_executable_model_is_delivery_independent.
 Print Assumptions C04_decoding_is_delivery_independent.
+Print Assumptions C04_reference_inflater_meets_the_contract.
 Print Assumptions C04_delivery_independent_from_any_state.
 Print Assumptions C04_driver_never_runs_dry.
 Print Assumptions C04_runs_of_transitions.
